@@ -283,9 +283,12 @@ class CtxPlan:
             if "memcpy_fixedlen" in body:
                 J["replace"].append("memcpy_sse_fixedlen")
         cost = COST.get((aspect, role), 10)
+        if aspect == "tape" and role in ("submit", "resubmit"):
+            solvers = ("cadical",)  # measured: minisat does not finish the tape aspect within an hour
         return Job(
             "ctx/%s_%s/%s/%s" % (alg, fam, role, aspect), [f["anno"]], includes=inc, defines=defs,
             unwind=24, solvers=list(solvers), timeout=timeout or max(600, cost * 4), split=split,
+            mem_gb=20 if aspect == "tape" else 12,
             meta={"file": os.path.relpath(f["path"], REPO), "sha256": f["sha256"], "aspect": aspect,
                   "role": role, "inst": "%s_%s" % inst, "cost": cost, "fired": f["fired"]},
             **J,
